@@ -5,6 +5,8 @@ from ..core import (AnalysisError, U, calls_in, call_tail, call_recv, call_name,
 from ..cfg import CFG, assigned_value
 from ..lib import (params, returns_of, is_none_const, dominating_literals)
 
+from . import extra as X
+
 EXPLANATION = ("Registration gate (flag written only by enable/disable with the right constants; decode/register dominated by the "
                "gate; servers reach registration only through the gated entry point); endpoint <-> library-operation identity table "
                "extracted from the Flask blueprint and cross-checked against the Tornado handlers; JSON-safety of listed results; "
@@ -436,3 +438,5 @@ def run(chk):
     rule_failure_status(chk, "C20.4")
     rule_remote_store(chk, "C20.5")
     rule_extra_parameters(chk, "C20.6")
+    X.rule_removedir_recursion(chk, "C20.7", [("liquer.remote_store", "RemoteStore")])
+    X.rule_get_json_force(chk, "C20.8")
